@@ -199,6 +199,16 @@ Theorem body_drain_aligns : forall mode early (cl : nat) stream (sched ws : list
                   (forall w, hb_read mode b'' r'' w = Ok ([], b'', r'')).
 Proof. exact body_drain_aligns_lemma. Qed.
 
+(** [read_to_bytes(limit)] after any reads through [AsyncRead] returns the rest of the declared body (up to [limit]),
+    not the body from its start and not a byte of what follows it. *)
+Theorem body_rest_exact : forall grow mode early (cl : nat) limit stream (sched ws : list nat) data b' r',
+  grow_ok grow -> sched_pos sched -> Forall (fun w => (0 < w)%nat) ws ->
+  (cl <= length early + Nat.min (sum_sched sched) (length stream))%nat ->
+  hb_reads mode (hb_new early cl) (mk_reader stream sched) ws = (data, b', r', None) ->
+  exists b'' r'', hb_read_to_bytes grow mode b' r' limit =
+     Ok (firstn (N.to_nat limit) (skipn (length data) (firstn cl (early ++ stream))), b'', r'').
+Proof. exact body_rest_exact_lemma. Qed.
+
 (** * What was false of the code before this round's repairs (Model/Http1ReadOld.v), each witness replayed on the
       real code through the harness (known-findings.txt) *)
 
